@@ -80,6 +80,19 @@ func C09() int {
 	// ---------------- (1) end to end: redact --encrypt, then decrypt per leaf
 	g.LongMax = 4000
 	items := CoreCorpus(g, pickN(c, 600, 6000))
+	{
+		// every other line takes some values from pools of near-duplicates (case, padding, trailing
+		// NULs, homoglyphs, long values): a round trip must give back exactly THIS spelling
+		tok := g.Token()
+		pool := []string{"Alice" + tok, "alice" + tok, "Alice" + tok + " ", "Alice" + tok + "\x00", "Alice" + tok + "\x00\x00", "\x00", "ab", "ab\x00", "ab\x00\x00", "", "é" + tok, "é" + tok, tok + strings.Repeat("L", 16385), tok + strings.Repeat("M", 30000)}
+		epool := []string{"bob" + tok + "@example.com", "bob" + tok + "@Example.COM", "Bob" + tok + "@example.com"}
+		for i := 1; i < len(items); i += 2 {
+			t2 := dupify(rng, items[i].Tree, pool, epool)
+			if raw := t2.Bytes(jt.Plain); len(raw) < 60000 {
+				items[i].Tree, items[i].Raw = t2, raw
+			}
+		}
+	}
 	budget := pickN(c, 450, 5000)
 	type leaf struct {
 		key          int
@@ -88,7 +101,7 @@ func C09() int {
 		item         int
 	}
 	var mu sync.Mutex
-	var leaves []leaf
+	var leaves, leaves2 []leaf
 	perKey := (len(items) + len(keys) - 1) / len(keys)
 	parallelDo(len(keys), func(ki int) {
 		lo, hi := ki*perKey, (ki+1)*perKey
@@ -117,6 +130,32 @@ func C09() int {
 			c.Violation("encrypt-run-failed", fmt.Sprintf("redact --encrypt exit %d, %d output lines for %d input lines: %s", r.Exit, len(ols), hi-lo, short(r.Stderr, 300)), map[string]any{"input": buf.String()})
 			return
 		}
+		// second pass over the FIRST pass's output with the same key file: at the sensitive positions
+		// the input now holds base64 text (the first pass's ciphertexts); they are string literals like
+		// any other and must come out as ciphertexts that decrypt to exactly that base64 text
+		out2p := filepath.Join(dir, "out2.log")
+		r2 := s.CLI(sut.Run{Args: []string{"redact", "--encrypt", "-q", kf, "-o", out2p, outp}, Dir: dir})
+		ob2, _ := os.ReadFile(out2p)
+		ols2 := splitLines(ob2)
+		if r2.Exit != 0 || len(ols2) != len(ols) {
+			c.Violation("second-pass-failed", fmt.Sprintf("redact --encrypt over its own output: exit %d, %d lines for %d", r2.Exit, len(ols2), len(ols)), map[string]any{"input": string(ob)})
+		} else {
+			for i := range ols {
+				t1, e1 := jt.ParseObject(ols[i])
+				t2, e2 := jt.ParseObject(ols2[i])
+				if e1 != nil || e2 != nil {
+					continue
+				}
+				walk3(nil, items[lo+i].Tree, t1, t2, func(path []string, in, p1, p2 *jt.Node, mism string) {
+					if mism != "" || in.T == nil || in.T.Role != jt.Sens || in.K != jt.Str || p1.K != jt.Str || p2.K != jt.Str || lo+i >= len(items) {
+						return
+					}
+					mu.Lock()
+					leaves2 = append(leaves2, leaf{ki, p1.S, p2.S, "second-pass", jt.PathStr(path), lo + i})
+					mu.Unlock()
+				})
+			}
+		}
 		for i, ol := range ols {
 			t, err := jt.ParseObject(ol)
 			if err != nil {
@@ -134,6 +173,8 @@ func C09() int {
 		}
 	})
 	c.Set("sensitive_string_leaves_in_encrypt_output", len(leaves))
+	c.Set("second_pass_leaves", len(leaves2))
+	leaves = append(leaves, leaves2...)
 	// all leaves: in-process bulk decrypt through the agent; sample: CLI decrypt
 	byKey := map[int][]int{}
 	for i, l := range leaves {
